@@ -794,6 +794,27 @@ impl Player {
         if height != u64::MAX && height > self.max_h {
             self.max_h = height;
         }
+        // ---- methods with static answers
+        {
+            let st = |me: &mut Self, m: &str, p: Value| me.get(m, p).ok().cloned().unwrap_or(json!("ERR"));
+            let zero_hash = format!("0x{}", "00".repeat(32));
+            flag!("static", st(self, "eth_gasPrice", json!([])) == json!("0x0") && st(self, "eth_maxPriorityFeePerGas", json!([])) == json!("0x0")
+                && st(self, "eth_blobBaseFee", json!([])) == json!("0x0") && st(self, "eth_syncing", json!([])) == json!(false)
+                && st(self, "net_version", json!([])) == json!("4252433230")
+                && st(self, "eth_getUncleCountByBlockNumber", json!([0])) == json!("0x0")
+                && st(self, "eth_getUncleCountByBlockHash", json!([zero_hash])) == json!("0x0")
+                && st(self, "eth_getUncleByBlockNumberAndIndex", json!([0, 0])).is_null()
+                && st(self, "eth_getUncleByBlockHashAndIndex", json!([zero_hash, 0])).is_null()
+                && st(self, "eth_accounts", json!([])).as_array().map(|a| a.len()) == Some(1)
+                && st(self, "eth_chainId", json!([])) == json!(format!("0x{:x}", self.chain_id)),
+                "a method with a static answer answered something else");
+            let mut bal_ok = true;
+            for a in self.u_addr.clone() {
+                let hx = self.addr_hex(&a);
+                bal_ok &= st(self, "eth_getBalance", json!([hx, "latest"])) == json!("0x0");
+            }
+            flag!("static_balance", bal_ok, "eth_getBalance is not 0x0 for a known address");
+        }
         // ---- blocks
         let mut blocks = Vec::new();
         let mut block_txs: BTreeMap<u64, Vec<B256>> = BTreeMap::new();
@@ -864,6 +885,19 @@ impl Player {
             // raw forms decode to the same data
             let raw_ok = self.check_raw(h, &b, &hashes);
             flag!("raw", raw_ok.is_ok(), "raw block {}: {}", h, raw_ok.clone().err().unwrap_or_default());
+            // the block trace string is the |-joined OPI form of the traces of its transactions, in index order
+            let bts = self.get("debug_getBlockTraceString", json!([format!("{}", h)])).ok().cloned().unwrap_or(Value::Null);
+            let bth = self.get("debug_getBlockTraceHash", json!([format!("{}", h)])).ok().cloned().unwrap_or(Value::Null);
+            let mut parts = Vec::new();
+            for x in &hashes {
+                let tr = self.get("debug_traceTransaction", json!([hexs(x.as_slice())])).ok().cloned().unwrap_or(Value::Null);
+                if !tr.is_null() {
+                    parts.push(opi_string(&tr));
+                }
+            }
+            let want = parts.join("|");
+            flag!("blk_trace", bts.as_str() == Some(want.as_str()), "trace string of block {}: {:?} vs {:?}", h, bts.as_str().map(|x| x.chars().take(120).collect::<String>()), want.chars().take(120).collect::<String>());
+            flag!("blk_trace_hash", bth.as_str() == Some(sha256::digest(want.clone()).as_str()), "trace hash of block {}", h);
             block_txs.insert(h, hashes);
             blocks.push(json!({"h": h, "hash": tok,
                 "parent": names::token_of_hash(&b256_of(&b["parentHash"]).unwrap_or_default()),
@@ -899,8 +933,16 @@ impl Player {
                 && t["hash"] == rc["transactionHash"], "tx {} and its receipt disagree", id);
             let by_n = self.get("eth_getTransactionByBlockNumberAndIndex", json!([b, i])).ok().cloned().unwrap_or(Value::Null);
             let by_h = self.get("eth_getTransactionByBlockHashAndIndex", json!([t["blockHash"], i])).ok().cloned().unwrap_or(Value::Null);
-            let _ = by_h;
             flag!("tx_by_idx", by_n == t, "tx {} is not the one served at ({}, {})", id, b, i);
+            flag!("tx_by_hash_idx", by_h == t || b > height, "tx {} is not the one served at (hash of block {}, {})", id, b, i);
+            // the call trace, when there is one, is the trace of THIS transaction
+            // (a transaction that failed revm's validation never ran: its recorded trace is the empty default frame)
+            if !tr.is_null() && u64_of(&rc["gasUsed"]) != Some(0) {
+                let created_or_to = if t["to"].is_null() { rc["contractAddress"].clone() } else { t["to"].clone() };
+                let low = |v: &Value| v.as_str().map(|x| x.to_lowercase());
+                flag!("trace_link", low(&tr["from"]) == low(&t["from"]) && (tr["to"].is_null() || created_or_to.is_null() || low(&tr["to"]) == low(&created_or_to))
+                    && low(&tr["input"]) == low(&t["input"]), "trace of tx {} names other parties or input than the transaction: trace {}/{}/{} tx {}/{}/{}", id, tr["from"], tr["to"], tr["input"].as_str().map(|x| x.chars().take(40).collect::<String>()).unwrap_or_default(), t["from"], created_or_to, t["input"].as_str().map(|x| x.chars().take(40).collect::<String>()).unwrap_or_default());
+            }
             // own derivation of the hash for inscription transactions (r = s = 0)
             if t["r"] == json!("0x0") && t["s"] == json!("0x0") {
                 let from: Address = t["from"].as_str().unwrap_or("").parse().unwrap_or_default();
@@ -1130,6 +1172,19 @@ impl Player {
 
 /// SHA-256 merkle root over the transaction hashes as leaves; an odd node is promoted unchanged
 /// (re-implemented here; compared with what the block reports).
+/// TraceED::get_opi_string re-derived from the JSON form served by debug_traceTransaction
+pub fn opi_string(tr: &Value) -> String {
+    let dec = |v: &Value| -> String {
+        let s = v.as_str().unwrap_or("0x0").trim_start_matches("0x");
+        alloy::primitives::U256::from_str_radix(if s.is_empty() { "0" } else { s }, 16).map(|x| x.to_string()).unwrap_or_else(|_| "?".into())
+    };
+    let addr = |v: &Value| v.as_str().unwrap_or("").to_lowercase().trim_start_matches("0x").to_string();
+    let bytes = |v: &Value| v.as_str().unwrap_or("").to_lowercase().trim_start_matches("0x").to_string();
+    let calls: Vec<String> = tr["calls"].as_array().cloned().unwrap_or_default().iter().map(opi_string).collect();
+    format!("{};{};{};{};{};{};{};[{}]", tr["type"].as_str().unwrap_or("").to_uppercase(), addr(&tr["from"]),
+        if tr["to"].is_null() { String::new() } else { addr(&tr["to"]) }, dec(&tr["gas"]), dec(&tr["gasUsed"]), bytes(&tr["input"]), bytes(&tr["output"]), calls.join(","))
+}
+
 pub fn merkle_root(leaves: &[B256]) -> B256 {
     if leaves.is_empty() {
         return B256::ZERO;
